@@ -1,6 +1,7 @@
 package props
 
 import (
+	"sync/atomic"
 	"encoding/json"
 	"fmt"
 	"math"
@@ -70,6 +71,7 @@ type tlCase struct {
 	offset    uint32 // height offset (tips near 2^32)
 	restartAt string // "" | before-conf | in-pay
 	lieBelow  bool   // backend reports a tip below the anchor at payment time
+	lieDelta  int    // ... exactly this many blocks below the anchor (0 = far below)
 	legacy    bool   // protocol 6 record (Liquid)
 	bcastEarly bool  // the maker broadcasts right after the negotiation (after confGap blocks) and announces at start+preBlocks
 	confGap    int
@@ -108,9 +110,11 @@ func runTimelock(r *Run, seed int64, c tlCase, onAttempt func(w *sim.World, o *t
 	blind, _ := btcec.NewPrivateKey()
 	makerPub := makerKey.PubKey().SerializeCompressed()
 	failed := 0
+	var blocksDue atomic.Int32 // blocks that arrive while the node waits for its next payment attempt
 	w.LN.Script = func(payer string, inv *sim.Invoice, n int) sim.Outcome {
 		if inv.Type == 1 && failed < c.failFirst {
 			failed++
+			blocksDue.Store(int32(c.mineRetry))
 			return sim.OutFail
 		}
 		return sim.OutSettle
@@ -121,7 +125,15 @@ func runTimelock(r *Run, seed int64, c tlCase, onAttempt func(w *sim.World, o *t
 	node.OnCrossing = func(k int64, op string) {
 		// blocks arrive right before a height lookup of the payment phase, so the node can see them
 		if confirmed && op == c.chain+".height" && c.mineRetry > 0 {
+			blocksDue.Store(0)
 			chain.Mine(c.mineRetry)
+			return
+		}
+		// blocks that arrived during the pause after a failed attempt are there at whatever the node does
+		// next (on the unchanged tree that is the height lookup above); nothing is ever mined between a
+		// height lookup and the payment that follows it
+		if n := blocksDue.Swap(0); n > 0 && confirmed {
+			chain.Mine(int(n))
 		}
 	}
 	_ = announced
@@ -137,12 +149,8 @@ func runTimelock(r *Run, seed int64, c tlCase, onAttempt func(w *sim.World, o *t
 		case "ln.pay.try":
 			p := e.P.(sim.EvPay)
 			if p.Op == "rebalance" {
-				// the tip that counts is the one the backend last reported to the node
-				if c.chain == "lbtc" {
-					p.LbtcTip = o.lastHeight
-				} else {
-					p.BtcTip = o.lastHeight
-				}
+				// p.BtcTip / p.LbtcTip: the chain's tip at this instant; o.lastHeight: what the backend last told
+				// the node (equal unless the backend lies or the node did not ask)
 				o.attempts = append(o.attempts, p)
 				if rec := node.StoredSwapLocked(swapIDOf(w, node)); rec != nil {
 					o.anchor, o.anchorSet = rec.Data.StartingBlockHeight, rec.Data.StartingBlockHeightSet
@@ -258,6 +266,11 @@ func runTimelock(r *Run, seed int64, c tlCase, onAttempt func(w *sim.World, o *t
 			return o
 		}
 	}
+	if c.restartAt == "before-announce" {
+		// the taker is restarted while it waits for the announcement, long after its start
+		node.Restart()
+		w.Run()
+	}
 	announced = true
 	msg := &swap.OpeningTxBroadcastedMessage{SwapId: id, Payreq: inv.Payreq, TxId: tx.ID}
 	if c.chain == "lbtc" {
@@ -301,7 +314,15 @@ func runTimelock(r *Run, seed int64, c tlCase, onAttempt func(w *sim.World, o *t
 			if c.chain == "btc" {
 				wt = inc.BtcWat
 			}
+			// the lagging backend is 1, 2 or many blocks behind the committed anchor
+			var anchor uint32
+			if rec := node.StoredSwap(id.String()); rec != nil && rec.Data.StartingBlockHeightSet {
+				anchor = rec.Data.StartingBlockHeight
+			}
 			wt.HeightOverride = func() (uint32, error) {
+				if lie && anchor > 3 && c.lieDelta > 0 {
+					return anchor - uint32(c.lieDelta), nil
+				}
 				if lie {
 					return chain.Height() + c.offset - 1 - uint32(c.preBlocks) - uint32(need) - 5, nil
 				}
@@ -413,7 +434,7 @@ func TestC04(t *testing.T) {
 		c := tlCase{chain: "lbtc", role: pick(rng, "out-sender", "in-receiver"), cltv: pick(rng, int64(29), 29, 29, 29, 29, 29, 0, 1, 28, 30, 31, 32, 40, -1, 1<<31),
 			preBlocks: pick(rng, 0, 0, 0, 1, 10, 30, 50, 55, 56, 57, 58, 59, 60, 61, 70), lateBlks: pick(rng, 0, 0, 0, 0, 0, 1, 10, 40, 57, 58, 59, 60, 70),
 			failFirst: pick(rng, 0, 0, 1, 3, 8), mineRetry: pick(rng, 0, 0, 0, 1, 1, 5, 20, 40),
-			restartAt: pick(rng, "", "", "", "before-conf", "in-pay"), lieBelow: rng.Intn(10) == 0}
+			restartAt: pick(rng, "", "", "", "before-conf", "in-pay", "before-announce"), lieBelow: rng.Intn(6) == 0, lieDelta: pick(rng, 0, 1, 1, 2, 3)}
 		if rng.Intn(4) == 0 {
 			// heights just below 2^32: start of the chain is 1000, leave room for the blocks of the case
 			room := uint32(c.preBlocks + c.lateBlks + 64 + c.failFirst*c.mineRetry + c.mineRetry)
@@ -443,7 +464,7 @@ func TestC04(t *testing.T) {
 			}
 		}
 		o := runTimelock(r, seed, c, func(w *sim.World, o *tlObs, p sim.EvPay, inv *sim.Invoice) {
-			det := fmt.Sprintf("attempt %d at reported tip %d, anchor(set=%v) %d, invoice cltv %d, maxTotalCLTVDelta %d; case %+v seed %d", len(o.attempts), p.LbtcTip, o.anchorSet, o.anchor, c.cltv, p.MaxCLTV, c, seed)
+			det := fmt.Sprintf("attempt %d at real tip %d (last tip reported to the node %d), anchor(set=%v) %d, invoice cltv %d, maxTotalCLTVDelta %d; case %+v seed %d", len(o.attempts), p.LbtcTip, o.lastHeight, o.anchorSet, o.anchor, c.cltv, p.MaxCLTV, c, seed)
 			if c.legacy {
 				r.Violate("legacy-no-new-payment", "C04|legacy-swap-created-claim-payment", det, nil)
 				return
@@ -451,10 +472,17 @@ func TestC04(t *testing.T) {
 			if !o.anchorSet {
 				r.Violate("anchored-window", "C04|payment-without-anchor", det, nil)
 			}
-			tip, a := uint64(p.LbtcTip), uint64(o.anchor)
+			// lower bound: judged on what the backend told the node (a lagging backend must stop the payment);
+			// upper bound: judged on the later of reported and real tip (blocks that arrived while the node
+			// paused between two attempts count)
+			reported, a := uint64(o.lastHeight), uint64(o.anchor)
+			tip := max(reported, uint64(p.LbtcTip))
+			if c.lieBelow {
+				tip = reported
+			}
 			pos := "inside"
 			switch {
-			case tip < a:
+			case reported < a:
 				pos = "below-anchor"
 			case tip >= a+60:
 				pos = "at-or-after-deadline"
@@ -505,7 +533,7 @@ func TestC05(t *testing.T) {
 		c := tlCase{chain: "btc", role: pick(rng, "out-sender", "in-receiver"), cltv: pick(rng, int64(503), 503, 0, 9, 144, 500, 502, 504, 505, 506),
 			preBlocks: pick(rng, 0, 0, 1, 100, 400, 495, 499, 500, 501, 502, 503, 504, 505, 510), lateBlks: pick(rng, 0, 0, 0, 1, 3, 100, 400, 499, 500, 501, 502, 503),
 			failFirst: pick(rng, 0, 0, 1, 3), mineRetry: pick(rng, 0, 0, 1, 100, 250),
-			restartAt: pick(rng, "", "", "", "before-conf", "in-pay")}
+			restartAt: pick(rng, "", "", "", "before-conf", "in-pay", "before-announce")}
 		if c.role == "out-sender" {
 			c.confEarly = pick(rng, 0, 0, 1, 2, 3)
 			if c.confEarly > 0 {
@@ -535,6 +563,20 @@ func TestC05(t *testing.T) {
 			}
 		}
 	}
+	// restarts while waiting for the announcement: the maker has confirmed its opening tx right after the
+	// negotiation, announces 300..700 blocks later, and the taker is restarted just before that
+	for _, role := range []string{"out-sender", "in-receiver"} {
+		for _, ann := range []int{300, 503, 505, 506, 510, 700} {
+			for _, f := range []int64{144, 503, 504} {
+				c := tlCase{chain: "btc", role: role, cltv: f, preBlocks: ann, restartAt: "before-announce", bcastEarly: true}
+				cases = append(cases, c)
+				if role == "out-sender" {
+					c.bcastEarly, c.confEarly = false, 1
+					cases = append(cases, c)
+				}
+			}
+		}
+	}
 	parallelDo(len(cases), 12, func(i int) {
 		c := cases[i]
 		seed := r.Seed*5519 + int64(i) + 1
@@ -543,7 +585,7 @@ func TestC05(t *testing.T) {
 			if inv == nil {
 				return
 			}
-			now := int64(p.BtcTip)
+			now := max(int64(p.BtcTip), int64(o.lastHeight)) // the later of the real tip and the last tip the node was told
 			hc := int64(0)
 			// confirmation height from ground truth
 			for _, tx := range w.BTC.TxsByLocked("mallory", "open") {
